@@ -35,7 +35,7 @@ REQUIRED_COUNTERS = [
     "accepted", "members.compared", "pos.declared", "pos.declared_renamed", "pos.pattern", "pos.additional",
     "pos.tuple_item", "pos.additional_item", "pos.list_item", "int_to_float", "int_kept_under_integer",
     "branch.first_accepting_checked", "branch.index0", "branch.index_gt0", "model_instances", "anon_objects",
-    "extras.default_or_notpassed", "access.attribute", "access.item",
+    "extras.default_or_notpassed", "access.attribute", "access.item", "families", "family.accepted_level1",
 ]
 
 
@@ -391,18 +391,87 @@ def one_schema(ctx, sut, fpm, idx):
     ctx.sample({"schema": schema, "values": [v for v in values[:2]]}, every=60)
 
 
+def one_family(ctx, sut, fpm, idx):
+    """Model classes written in the DSL with inheritance: every class of the chain is used, base
+    classes FIRST, and each result is walked against the class's merged schema."""
+    from vlib import gen_dsl  # pylint: disable=import-outside-toplevel
+
+    rng = ctx.rng
+    gen = gen_dsl.Gen(rng, max_depth=1, share=0.0, inheritance=1.0, renames=0.5, defaults=0.2)
+    chain = [gen.klass(1)]
+    for _ in range(rng.randint(1, 3)):
+        chain.append(gen.klass(1, base=chain[-1]["id"]))
+    index = {}
+    for node in chain:
+        gen_dsl.index_specs(node, index)
+    memo = {"__index__": index}
+    try:
+        classes = [gen_dsl.build(node, memo) for node in chain]
+    except Exception as exc:  # pylint: disable=broad-except
+        ctx.count("build_failed." + type(exc).__name__)
+        return
+    ctx.count("families")
+    order = list(range(len(chain)))
+    if idx % 3 == 0:
+        order.reverse()  # sometimes the most derived class first
+    for level in order:
+        schema = gen_dsl.to_schema(chain[level], index)
+        values = gv.batch_for_schema(rng, schema, schema, count=6, lookalikes=False)
+        for value in values:
+            ctx.evaluation()
+            pristine = copy.deepcopy(value)
+            outcome, result, _exc = sut.call(classes[level], value)
+            if outcome != "ok":
+                ctx.count("rejected")
+                continue
+            ctx.count("accepted")
+            ctx.count("family.accepted_level%d" % min(level, 2))
+            case = {"chain": chain, "level": level, "order": order}
+            if isinstance(pristine, dict) and len(pristine) >= 2:
+                ctx.nontrivial(canon([chain, level, pristine]))
+            walker = Walk(ctx, sut, case)
+            walker.walk(result, pristine, schema, "$")
+            if walker.problems:
+                ctx.witness("result_incomplete_or_altered", {**case, "value": pristine},
+                            "; ".join(walker.problems[:3]), finding=walker.finding)
+                return
+    _ = fpm
+
+
 def run_shard(ctx):
     from vlib import fingerprint as fpm  # pylint: disable=import-outside-toplevel
     from vlib import sut  # pylint: disable=import-outside-toplevel
 
     for idx in range(ctx.params["schemas"]):
         one_schema(ctx, sut, fpm, idx)
+        if idx % 4 == 0:
+            one_family(ctx, sut, fpm, idx)
 
 
 def replay(case, ctx):
     from vlib import fingerprint as fpm  # pylint: disable=import-outside-toplevel
     from vlib import sut  # pylint: disable=import-outside-toplevel
 
+    if "chain" in case:
+        from vlib import gen_dsl  # pylint: disable=import-outside-toplevel
+
+        index = {}
+        for node in case["chain"]:
+            gen_dsl.index_specs(node, index)
+        memo = {"__index__": index}
+        classes = [gen_dsl.build(node, memo) for node in case["chain"]]
+        for level in case.get("order", range(len(classes))):
+            schema = gen_dsl.to_schema(case["chain"][level], index)
+            value = copy.deepcopy(case["value"])
+            outcome, result, _ = sut.call(classes[level], value)
+            ctx.evaluation()
+            if outcome == "ok" and level == case["level"]:
+                walker = Walk(ctx, sut, case)
+                walker.walk(result, copy.deepcopy(case["value"]), schema, "$")
+                if walker.problems:
+                    ctx.witness("result_incomplete_or_altered", case, "; ".join(walker.problems[:3]),
+                                finding=walker.finding)
+        return
     element = sut.parse_direct(case["schema"])
     value = case["value"]
     pristine = copy.deepcopy(value)
